@@ -391,10 +391,10 @@ pub fn fam_frame(tier: Tier) -> Vec<Config> {
     for seq in item_seqs(max_len) {
         for lazy in [false, true] {
             for conc in [Some(1usize), Some(2), None] {
-                for retry in [false, true] {
+                for (retry, fail) in [(false, false), (true, false), (false, true)] {
                     for ff in [false, true] {
                         let mut cfg = frame_config(&seq);
-                        if retry && cfg.feats.is_empty() {
+                        if (retry || fail) && cfg.feats.is_empty() {
                             continue;
                         }
                         cfg.lazy = lazy;
@@ -416,15 +416,26 @@ pub fn fam_frame(tier: Tier) -> Vec<Config> {
                                 continue;
                             }
                         }
+                        if fail {
+                            // the first scenario fails finally
+                            let infos = cfg.scen_infos();
+                            match infos.first().and_then(|i| i.calls.first()) {
+                                Some(c) => {
+                                    cfg.plan.outcomes.insert(c.key.clone(), vec![Outcome::PanicString]);
+                                }
+                                None => continue,
+                            }
+                        }
                         let ngates = cfg.scen_infos().len() + if lazy { seq.len() + 1 } else { 0 };
                         if ngates > 6 {
                             cfg.bound = Some(if tier == Tier::Quick { 2 } else { 3 });
                         }
                         cfg.max_execs = if tier == Tier::Quick { 3_000 } else { 100_000 };
                         cfg.name = format!(
-                            "frame/{seq:?}|lazy{}|c{conc:?}|r{}|ff{}",
+                            "frame/{seq:?}|lazy{}|c{conc:?}|r{}|fail{}|ff{}",
                             u8::from(lazy),
                             u8::from(retry),
+                            u8::from(fail),
                             u8::from(ff)
                         );
                         out.push(cfg);
@@ -738,8 +749,15 @@ pub fn fam_ff(tier: Tier) -> Vec<Config> {
                 for retry in 0..=1usize {
                     for via_cli in [false, true] {
                         for err_at in [None, Some(0usize), Some(1)] {
-                            for (after, sync) in [(false, false), (true, false), (false, true)] {
+                            for (after, sync, lazy) in [
+                                (false, false, false),
+                                (true, false, false),
+                                (false, true, false),
+                                (false, false, true),
+                            ] {
                                 let mut cfg = base(String::new());
+                                cfg.lazy = lazy;
+                                cfg.lazy_end = lazy;
                                 let scs: Vec<ScenSpec> = (0..nsc).map(|_| scen(&[], &[M])).collect();
                                 let (a, b) = scs.split_at(nsc / 2);
                                 cfg.feats = vec![feat(a.to_vec()), feat(b.to_vec())];
@@ -780,15 +798,16 @@ pub fn fam_ff(tier: Tier) -> Vec<Config> {
                                         vec![Outcome::PanicStr, Outcome::Pass],
                                     );
                                 }
-                                if nsc + retry > 3 {
+                                if nsc + retry + usize::from(lazy) * 3 > 3 {
                                     cfg.bound = Some(if tier == Tier::Quick { 2 } else { 3 });
                                 }
                                 cfg.max_execs = if tier == Tier::Quick { 2_000 } else { 200_000 };
                                 cfg.name = format!(
-                                    "ff/n{nsc}|f{failing}|c{conc:?}|r{retry}|cli{}|e{err_at:?}|a{}|sync{}",
+                                    "ff/n{nsc}|f{failing}|c{conc:?}|r{retry}|cli{}|e{err_at:?}|a{}|sync{}|lazy{}",
                                     u8::from(via_cli),
                                     u8::from(after),
-                                    u8::from(sync)
+                                    u8::from(sync),
+                                    u8::from(lazy)
                                 );
                                 out.push(cfg);
                             }
@@ -814,8 +833,17 @@ pub fn fam_panic(tier: Tier) -> Vec<Config> {
         Some(Outcome::PanicCustom),
     ];
     for world in [WOutcome::Ok, WOutcome::Err, WOutcome::Panic] {
-        for gates in [GateMode::None, GateMode::Steps, GateMode::All] {
+        for (gates, sync) in [
+            (GateMode::None, false),
+            (GateMode::None, true),
+            (GateMode::Steps, false),
+            (GateMode::Steps, true),
+            (GateMode::All, false),
+        ] {
             if tier == Tier::Quick && gates == GateMode::All && world != WOutcome::Ok {
+                continue;
+            }
+            if sync && world != WOutcome::Ok {
                 continue;
             }
             for b in opts {
@@ -830,6 +858,7 @@ pub fn fam_panic(tier: Tier) -> Vec<Config> {
                             cfg.after = true;
                             cfg.conc_builder = Some(Some(2));
                             cfg.plan.gates = gates.clone();
+                            cfg.plan.sync_panics = sync;
                             cfg.plan.world_new_rest = world;
                             let infos = cfg.scen_infos();
                             let mut ins = |k: String, o: &Option<Outcome>| {
@@ -846,7 +875,10 @@ pub fn fam_panic(tier: Tier) -> Vec<Config> {
                                 cfg.bound = Some(if tier == Tier::Quick { 1 } else { 3 });
                             }
                             cfg.max_execs = if tier == Tier::Quick { 500 } else { 100_000 };
-                            cfg.name = format!("panic/w{world:?}|g{gates:?}|b{b:?}|s{s:?}|a{a:?}|s2{s2:?}");
+                            cfg.name = format!(
+                                "panic/w{world:?}|g{gates:?}|sync{}|b{b:?}|s{s:?}|a{a:?}|s2{s2:?}",
+                                u8::from(sync)
+                            );
                             out.push(cfg);
                         }
                     }
@@ -922,7 +954,7 @@ pub fn fam_verdict(tier: Tier) -> Vec<Config> {
         if tier == Tier::Quick { &[None, Some(false)] } else { &[None, Some(false), Some(true)] };
     let ffs: &[bool] = if tier == Tier::Quick { &[false] } else { &[false, true] };
     for second in [M, StepKind::NoMatch, StepKind::Ambiguous] {
-        for allow in ["none", "scenario", "rule", "feature"] {
+        for allow in ["none", "scenario", "rule", "feature", "feature-of-rule"] {
             if allow != "none" && second != StepKind::NoMatch {
                 continue;
             }
@@ -938,10 +970,11 @@ pub fn fam_verdict(tier: Tier) -> Vec<Config> {
                                 tags.push("allow.skipped".into());
                             }
                             let t = ScenSpec { tags, steps: vec![M, second] };
-                            let f1 = if allow == "rule" {
+                            let f1 = if allow == "rule" || allow == "feature-of-rule" {
                                 FeatSpec {
+                                    tags: if allow == "rule" { vec![] } else { vec!["allow.skipped".into()] },
                                     rules: vec![RuleSpec {
-                                        tags: vec!["allow.skipped".into()],
+                                        tags: if allow == "rule" { vec!["allow.skipped".into()] } else { vec![] },
                                         bg: vec![],
                                         scenarios: vec![t],
                                     }],
